@@ -272,6 +272,77 @@ func digestChain(c *core.Ctx) (bool, string) {
 	if !requireChecked {
 		fail("descriptorFromResponse/require-digest", dfr.Pos(), "descriptorFromResponse no longer fails when a digest is required but absent")
 	}
+	// value classification, looking through same-package helpers whose every
+	// success return yields a known descriptor / digest
+	var descKnownCall func(call *ssa.Call, idx int, d int) bool
+	var digestKnown func(v ssa.Value, d int) bool
+	helperRet := func(call *ssa.Call, idx int, d int, known func(v ssa.Value, d int) bool) bool {
+		h := call.Call.StaticCallee()
+		if h == nil || h.Blocks == nil || h.Pkg != dfr.Pkg || d <= 0 {
+			return false
+		}
+		n := 0
+		for _, r := range returnsOf(h) {
+			if len(r.Results) <= idx {
+				return false
+			}
+			if last := r.Results[len(r.Results)-1]; last.Type().String() == "error" && !facts.RetErrIsNil(r) {
+				ev := facts.RetVal(r, len(r.Results)-1)
+				forwarded := false
+				if e1, ok := ev.(*ssa.Extract); ok {
+					if e0, ok := facts.RetVal(r, idx).(*ssa.Extract); ok && e0.Tuple == e1.Tuple {
+						forwarded = true // `return f(...)`: classified by f's own success value
+					}
+				}
+				if !forwarded && facts.ProvablyNonNil(ev, r.Block()) {
+					continue // an error return: the value is not used by the caller
+				}
+			}
+			n++
+			if !known(facts.RetVal(r, idx), d-1) {
+				return false
+			}
+		}
+		if n > 0 {
+			c.Analysed(facts.FuncName(h))
+		}
+		return n > 0
+	}
+	descKnown := func(v ssa.Value, d int) bool {
+		ex, ok := v.(*ssa.Extract)
+		if !ok {
+			return false
+		}
+		call, ok := ex.Tuple.(*ssa.Call)
+		return ok && descKnownCall(call, ex.Index, d)
+	}
+	descKnownCall = func(call *ssa.Call, idx int, d int) bool {
+		if call.Call.StaticCallee() == dfr {
+			if idx != 0 {
+				return false
+			}
+			if k, isK := facts.ConstInt(call.Call.Args[2]); isK && k&2 != 0 {
+				return true
+			}
+			return knownDigestValidated(call.Call.Args[1], call)
+		}
+		return helperRet(call, idx, d, descKnown)
+	}
+	digestKnown = func(v ssa.Value, d int) bool {
+		v = facts.Resolve(v)
+		switch x := v.(type) {
+		case *ssa.Call:
+			if strings.HasSuffix(facts.CalleeName(&x.Call), "go-digest.FromBytes") {
+				return true
+			}
+			return x.Call.Signature().Results().Len() == 1 && helperRet(x, 0, d, digestKnown)
+		case *ssa.Extract:
+			if call, ok := x.Tuple.(*ssa.Call); ok {
+				return helperRet(call, x.Index, d, digestKnown)
+			}
+		}
+		return false
+	}
 	// (2) every call of the constructors
 	n := 0
 	for _, fn := range c.P.ModuleFunctions("ociclient") {
@@ -289,17 +360,7 @@ func digestChain(c *core.Ctx) (bool, string) {
 			}
 			if cell == nil {
 				// a descriptor used straight from descriptorFromResponse
-				okDirect := false
-				if ex, isEx := facts.Resolve(descArg).(*ssa.Extract); isEx && ex.Index == 0 {
-					if call, isCall := ex.Tuple.(*ssa.Call); isCall && call.Call.StaticCallee() == dfr {
-						if k, isK := facts.ConstInt(call.Call.Args[2]); isK && k&2 != 0 {
-							okDirect = true
-						}
-						if knownDigestValidated(call.Call.Args[1], call) {
-							okDirect = true
-						}
-					}
-				}
+				okDirect := descKnown(facts.Resolve(descArg), 2)
 				if okDirect {
 					c.OK("C18.R1", facts.FuncName(fn)+"/digest-known", ci.Pos(), "the descriptor comes from a response for which the digest is required or is the validated digest of the request")
 				} else {
@@ -323,25 +384,13 @@ func digestChain(c *core.Ctx) (bool, string) {
 					}
 					if st.Addr == ssa.Value(cell) {
 						delete(t, "known")
-						ex, ok := st.Val.(*ssa.Extract)
-						if !ok || ex.Index != 0 {
-							return
-						}
-						call, ok := ex.Tuple.(*ssa.Call)
-						if !ok || call.Call.StaticCallee() != dfr {
-							return
-						}
-						if k, isK := facts.ConstInt(call.Call.Args[2]); isK && k&2 != 0 {
-							t["known"] = true
-							return
-						}
-						if knownDigestValidated(call.Call.Args[1], call) {
+						if descKnown(st.Val, 2) {
 							t["known"] = true
 						}
 						return
 					}
 					if isDescDigest(st.Addr) {
-						if call, ok := facts.Resolve(st.Val).(*ssa.Call); ok && strings.HasSuffix(facts.CalleeName(&call.Call), "go-digest.FromBytes") {
+						if digestKnown(st.Val, 2) {
 							t["known"] = true
 						} else {
 							delete(t, "known")
@@ -629,6 +678,18 @@ func c18StatusGate(c *core.Ctx) {
 							gated = true
 						}
 					}
+					// a same-package predicate over the status holds, and it answers
+					// true only under an equality test of that status
+					if call, isCall := cd.V.(*ssa.Call); isCall && cd.Pos {
+						if h := call.Call.StaticCallee(); h != nil && h.Pkg == do.Pkg && h.Blocks != nil {
+							for i, a := range call.Call.Args {
+								if _, fld, isF := facts.FieldOf(facts.Resolve(a)); isF && fld == "StatusCode" && trueOnlyUnderEquality(h, i) {
+									c.Analysed(facts.FuncName(h))
+									gated = true
+								}
+							}
+						}
+					}
 				}
 				c.Check(gated, "C18.R3", "client.do/status-gate", r.Pos(), "a response is returned only under an explicit status equality", "client.do returns a response as success on a path where its status was not compared with an accepted status")
 			}
@@ -651,4 +712,52 @@ func c18StatusGate(c *core.Ctx) {
 		}
 		c.Check(lim, "C18.R3", "makeError/limited-body", ci.Pos(), "error bodies are read through io.LimitReader", "an error response body is read without a size limit: a huge body is buffered entirely")
 	}
+}
+
+// trueOnlyUnderEquality: every return of the bool predicate h that can be true
+// is under (or is) an equality test of parameter pi.
+func trueOnlyUnderEquality(h *ssa.Function, pi int) bool {
+	if pi >= len(h.Params) || h.Signature.Results().Len() != 1 {
+		return false
+	}
+	isEq := func(cd facts.Cond) bool {
+		if x, op, y, ok := facts.Cmp(cd); ok && op == token.EQL {
+			return argIsParam(x, h, pi) || argIsParam(y, h, pi)
+		}
+		if call, ok := cd.V.(*ssa.Call); ok && cd.Pos && facts.CalleeName(&call.Call) == "slices.Contains" && len(call.Call.Args) == 2 {
+			return argIsParam(call.Call.Args[1], h, pi)
+		}
+		return false
+	}
+	n := 0
+	for _, r := range returnsOf(h) {
+		type cand struct {
+			v  ssa.Value
+			at *ssa.BasicBlock
+		}
+		var cands []cand
+		if ph, ok := r.Results[0].(*ssa.Phi); ok {
+			for i, e := range ph.Edges {
+				cands = append(cands, cand{facts.Resolve(e), ph.Block().Preds[i]})
+			}
+		} else {
+			cands = append(cands, cand{facts.RetVal(r, 0), r.Block()})
+		}
+		for _, cd0 := range cands {
+			if cst, ok := cd0.v.(*ssa.Const); ok && cst.Value != nil && cst.Value.ExactString() == "false" {
+				continue
+			}
+			n++
+			ok := false
+			for _, cd := range append(append([]facts.Cond{}, facts.CondsAt(cd0.at)...), facts.Cond{V: cd0.v, Pos: true}) {
+				if isEq(cd) {
+					ok = true
+				}
+			}
+			if !ok {
+				return false
+			}
+		}
+	}
+	return n > 0
 }
